@@ -25,7 +25,11 @@ type structFieldSet struct {
 }
 
 type structDecoder struct {
-	fieldMap           map[string]*structFieldSet
+	fieldMap map[string]*structFieldSet
+	// every field of the struct and of the structs embedded in it, with its depth of
+	// embedding, before it is decided which of them are visible: a struct that embeds
+	// this one decides over all levels at once ( as encoding/json does )
+	allFields          []*structFieldSet
 	fieldUniqueNameNum int
 	stringDecoder      *stringDecoder
 	structName         string
